@@ -63,6 +63,60 @@ def direct_lock_calls():
     return out
 
 
+REPLAYABLE = ("ServerState#1", "AddressSpace#1", "SessionManager#1", "Session#1", "Session#2", "TcpTransport#1", "TcpTransport#2")
+
+
+def confirm_on_real_locks(ctx, group, progs):
+    """Replays TLC's deadlock schedule of one group on the real lock objects (engine lockconfirm); informational: the
+    result goes to the evidence, the verdict is TLC's."""
+    try:
+        sub = {n: [i for i in progs[n] if i[1] in REPLAYABLE] for n in group}
+        names = sorted(sub)
+        locks = sorted({i[1] for s in sub.values() for i in s})
+        P = Tla("[n \\in {%s} |-> CASE %s]" % (", ".join(tla_value(n) for n in names),
+                                              " [] ".join("n = %s -> %s" % (tla_value(n), tla_value(sub[n])) for n in names)))
+        classof = Tla("[l \\in {%s} |-> CASE %s]" % (", ".join(tla_value(l) for l in locks),
+                                                    " [] ".join("l = %s -> %s" % (tla_value(l), tla_value(l.split("#")[0])) for l in locks)))
+        G = Tla("{{" + ", ".join(tla_value(n) for n in names) + "}}")
+        r = run_tlc(ctx.sub("confirm"), "Locks", {"Prog": P, "Groups": G, "ClassOf": classof}, spec="Spec", invariants=["NoDeadlock"],
+                    workers=1, timeout=300)
+        if not r.violated:
+            ctx.notes["real_lock_confirmation"] = {"group": list(group), "result": "the projection to the replayable locks does not deadlock in TLC"}
+            return
+        # schedule = which program's pc moved between consecutive states of the counterexample
+        pcs = []
+        for line in r.stdout.splitlines():
+            if line.startswith("/\\ pc = "):
+                d = {}
+                for n in names:
+                    mm = re.search(r'"%s" :> (\d+)' % re.escape(n), line)
+                    d[n] = int(mm.group(1)) if mm else 0
+                pcs.append(d)
+        sched = []
+        for a, b in zip(pcs, pcs[1:]):
+            moved = [k for k, n in enumerate(names) if a[n] != b[n]]
+            if moved:
+                sched.append(moved[0])
+            else:
+                # a writer announced that it waits: the step belongs to the program whose next instruction is a blocked write
+                sched.append(-1)
+        sched = [x for x in sched if x >= 0]
+        cpath = ctx.write_cases("lockconfirm", [{"case": 1, "group": names, "programs": sub, "schedule": sched}])
+        obs = ctx.run("lockconfirm", cpath, name="lockconfirm")
+        o = json.loads(open(obs).readline())
+        rr = o.get("r", {})
+        ok = o.get("fail") == "none" and rr.get("unfinished", 0) >= 2 and rr.get("blocked") == rr.get("unfinished")
+        ctx.notes["real_lock_confirmation"] = {
+            "group": names, "schedule_steps": len(sched), "unfinished_threads": rr.get("unfinished"), "blocked_threads": rr.get("blocked"),
+            "confirmed": ok,
+            "how": "one OS thread per program on the real RwLocks of a real server (ServerState, AddressSpace, shared SessionManager, "
+                   "Sessions and transports of two connections), timed acquisitions following TLC's schedule; confirmed = at the end "
+                   "every unfinished thread fails to get its next lock while all attempts run concurrently"}
+        log("[locks] deadlock of %s on the real locks: %s" % (names, "confirmed" if ok else "NOT confirmed %s" % rr))
+    except Exception as ex:
+        ctx.notes["real_lock_confirmation"] = {"error": str(ex)[:300]}
+
+
 def run(ctx):
     q = ctx.quick
     cpath = ctx.write_cases("locks", [{"case": 1}])
@@ -145,7 +199,9 @@ def run(ctx):
                               {"case": 1, "group": list(g), "programs": {x: progs[x] for x in g}}, engine="locks")
         return dead
 
-    compose("compose2", G, 4 if q else 8, 1500)
+    dead2 = compose("compose2", G, 4 if q else 8, 1500)
+    if dead2:
+        confirm_on_real_locks(ctx, sorted(dead2)[0], progs)
     if not q:
         trip = [sorted(x) for x in itertools.combinations(reps, 3)]
         trip = [trip[i] for i in sorted(random.Random(ctx.seed).sample(range(len(trip)), min(len(trip), 600)))]
